@@ -805,11 +805,13 @@ fn get_field_decorators(
                 None
             }
         })
-        .filter_map(|list: MetaList| match list.path.get_ident() {
-            Some(ident) if languages.contains(&ident.try_into().unwrap()) => {
-                Some((ident.try_into().unwrap(), list))
-            }
-            _ => None,
+        .filter_map(|list: MetaList| {
+            // nested lists that do not name a supported language are not field decorators
+            let language = list
+                .path
+                .get_ident()
+                .and_then(|ident| SupportedLanguage::try_from(ident).ok())?;
+            languages.contains(&language).then_some((language, list))
         })
         .map(|(language, list): (SupportedLanguage, MetaList)| {
             (
